@@ -17,7 +17,7 @@ pub struct Case {
     pub ctor: usize,   // 0 new(first only), 1 new(all), 2 with_safety, 3 with_safety(no check), safety installed afterwards through the public field
     pub frames: usize, // base/tool isometry choice
     pub layout: usize,
-    pub safety: usize, // 0 touch, 1 3 cm
+    pub safety: usize, // 0 touch, 1 3 cm, 2 touch with per-pair distances of 10-15 cm
     pub limits: usize, // 0 wide, 1 window, 2 window with hand-set centres / tolerances (public fields), 3 J4/J6 ranges that wrap, 4 J6 unconstrained (from == to), 5 wider than half a turn on every joint
     pub q: Joints,
 }
@@ -48,7 +48,14 @@ pub(crate) fn cell_for(c: &Case) -> CellDesc {
     cell.base = Some(b);
     cell.tool = Some(t);
     cell.envs = extra_layout(c.layout);
-    cell.safety = if c.safety == 0 { SafetyDesc::touch(if c.ctor == 0 { 0 } else { 1 }) } else { SafetyDesc { to_env: 0.03, to_robot: 0.03, special: vec![], mode: 0 } };
+    cell.safety = if c.safety == 0 {
+        SafetyDesc::touch(if c.ctor == 0 { 0 } else { 1 })
+    } else if c.safety == 2 {
+        // per-pair distances far larger than the defaults (forearm and tool against the first environment object, wrist against the base)
+        SafetyDesc { to_env: 0.0, to_robot: 0.0, special: vec![((3, rs_opw_kinematics::kinematic_traits::ENV_START_IDX), 0.12), ((rs_opw_kinematics::kinematic_traits::J_TOOL, rs_opw_kinematics::kinematic_traits::ENV_START_IDX), 0.15), ((4, rs_opw_kinematics::kinematic_traits::J_BASE), 0.1)], mode: 0 }
+    } else {
+        SafetyDesc { to_env: 0.03, to_robot: 0.03, special: vec![], mode: 0 }
+    };
     cell.limits = if c.limits == 0 {
         Limits { from: [-3.1; 6], to: [3.1; 6], weight: 0.0 }
     } else if c.limits == 2 {
@@ -207,6 +214,15 @@ pub fn eval(c: &Case) -> (Vec<(String, String)>, String) {
         c2.ctor = 2;
         build(&c2, &oc)
     };
+    // the verdicts that decide which answers must survive come from a twin of the robot under test switched to
+    // all-collisions mode (the filter itself runs the first-collision search): the two modes must agree on "collides at all"
+    let twin = {
+        let mut t = build(c, &cell);
+        if !matches!(t.body.safety.mode, rs_opw_kinematics::collisions::CheckMode::NoCheck) {
+            t.body.safety.mode = rs_opw_kinematics::collisions::CheckMode::AllCollsions;
+        }
+        t
+    };
     let mut interference_differs = false;
     // the four inverse entry points = ordered filter of the underlying stack's answers
     let pose = to_na(&want);
@@ -259,7 +275,7 @@ pub fn eval(c: &Case) -> (Vec<(String, String)>, String) {
         };
         // verdicts through collision_details (a different entry point than the filter itself uses), the last one asked first
         let want: Vec<Joints> = {
-            let keep: Vec<bool> = all.iter().rev().map(|s| robot.collision_details(s).is_empty()).collect();
+            let keep: Vec<bool> = all.iter().rev().map(|s| twin.collision_details(s).is_empty()).collect();
             all.iter().zip(keep.into_iter().rev()).filter(|(_, k)| *k).map(|(s, _)| *s).collect()
         };
         let same = got.len() == want.len() && got.iter().zip(want.iter()).all(|(a, b)| (0..6).all(|i| a[i].to_bits() == b[i].to_bits() || (a[i] - b[i]).abs() <= 1e-12));
@@ -286,14 +302,14 @@ pub fn run(ctx: &Ctx) -> Report {
     let qs = crate::c10::postures(false);
     let qs: Vec<Joints> = if thorough { qs } else { qs.into_iter().step_by(5).collect() };
     let layouts = [0usize, 2, 3, 9, 10, 11, 12, 13];
-    let sizes = [4, 3, layouts.len(), 2, 5, qs.len()];
+    let sizes = [4, 3, layouts.len(), 3, 5, qs.len()];
     let n = par::product(&sizes);
     let mut rep = par::run(n, |idx, r| {
         let mut ix = [0usize; 6];
         par::decode(idx, &sizes, &mut ix);
         let c = Case { ctor: ix[0], frames: ix[1], layout: layouts[ix[2]], safety: ix[3], limits: ix[4], q: qs[ix[5]] };
         // the safety axis only exists for with_safety
-        if c.ctor < 2 && c.safety == 1 {
+        if c.ctor < 2 && c.safety >= 1 {
             return;
         }
         // quick tier: the three special limit variants on every second (constructor, frames, posture) combination
@@ -359,11 +375,11 @@ pub fn run(ctx: &Ctx) -> Report {
     }
     rep.traces_validated = rep.transitions;
     rep.rule = "constructors {new(first only), new(all), with_safety, with_safety(no check) followed by assigning the safety table through the public field} x base/tool isometries {identity, shifted, rotated} x environments {free, near, blocking \
-                slab/wall/cage, ...} x safety {touch, 3 cm} x limits {wide, window+weight with off-zero centres, window with hand-set centres/tolerances, wrapping J4/J6 ranges, J6 unconstrained} x J6 arguments {0.4, 2.9, 0.4 + 2 pi} x postures x four inverse entry points x previous {near the solution, CONSTRAINT_CENTERED, far out, each answer of the underlying stack itself}; plus a sweep of J5 = +-{1e-7 .. 1.6e-4} (inside the singularity band, where the underlying continuing entry point returns more than eight answers) x 3 postures x 4 environments; oracle (differential): answers \
-                == ordered filter of the underlying stack's answers by an empty collision_details, bit-equal, while a second robot (same environment size, obstacles moved / other safety) is asked about the first candidate just before each call; forward, link poses, singularity bit-equal to the underlying stack (tool over base over the limited robot, built independently from the same pieces); \
+                slab/wall/cage, ...} x safety {touch, 3 cm, touch with per-pair distances of 10-15 cm} x limits {wide, window+weight with off-zero centres, window with hand-set centres/tolerances, wrapping J4/J6 ranges, J6 unconstrained} x J6 arguments {0.4, 2.9, 0.4 + 2 pi} x postures x four inverse entry points x previous {near the solution, CONSTRAINT_CENTERED, far out, each answer of the underlying stack itself}; plus a sweep of J5 = +-{1e-7 .. 1.6e-4} (inside the singularity band, where the underlying continuing entry point returns more than eight answers) x 3 postures x 4 environments; oracle (differential): answers \
+                == ordered filter of the underlying stack's answers by an empty collision_details of a twin robot in all-collisions mode, bit-equal, while a second robot (same environment size, obstacles moved / other safety) is asked about the first candidate just before each call; forward, link poses, singularity bit-equal to the underlying stack (tool over base over the limited robot, built independently from the same pieces); \
                 stack == base*FK_ref*tool with the given limits; positioned_robot == link poses cast to f32, tool on link 6, environment passed through; \
                 signature = (constructor, kept k of n)".into();
-    rep.set("axes", json!({"constructors": 4, "frames": 3, "layouts": layouts.len(), "safety": 2, "limits": 5, "postures": qs.len()}));
+    rep.set("axes", json!({"constructors": 4, "frames": 3, "layouts": layouts.len(), "safety": 3, "limits": 5, "postures": qs.len()}));
     rep.assumptions.push("collides() itself is tied to the brute-force pair oracle by C10".into());
     rep
 }
